@@ -472,6 +472,8 @@ class Bounds:
             return True
         if d > 5:
             return False
+        if _is(a, "rem") and len(a[2]) == 2 and _is(c, "get") and "NonZero" in canon(c[1]) and len(c[2]) == 1 and _args(a)[1] == _args(c)[0]:
+            return True     # x % nz <= nz.get() (strictly below, see _lt)
         # ---- structure of the smaller side: a <= X for a known X, then X <= c
         for x in self._uppers(a):
             if self.le(x, c, d + 1):
@@ -641,6 +643,8 @@ class Bounds:
             return True
         if _is(a, "rem", "rem_euclid") and len(a[2]) == 2 and self.le(_args(a)[1], c, d + 1):
             return True
+        if _is(a, "rem") and len(a[2]) == 2 and _is(c, "get") and "NonZero" in canon(c[1]) and len(c[2]) == 1 and _args(a)[1] == _args(c)[0]:
+            return True     # x % nz < nz.get()  (`usize % NonZeroUsize`: the divisor is the wrapped value)
         if a[0] == 'ok':
             p = norm(a[1])
             if _search_hay(p) is not None and self.le(('len', _search_hay(p)), c, d + 1):
